@@ -293,6 +293,7 @@ fn run_m<M: RawMutex + 'static>(cfg: &Cfg, ops: &[Op], run: &mut Run) {
         }
         run.set_step(i);
         run.steps += 1;
+        let op = &recycle(op, &slots, &[OP_MK], OP_POLL, OP_DROP);
         tls::clear_op_log();
         tls::alloc_reset();
         let owners_before = owners!();
